@@ -155,7 +155,19 @@ def leg_b(args):
     res = dict(leg="B", violations=[], evals=0, judged=0, distinct=[], inconclusive=None, sample=None, accepted=0, rejected=0)
     rl = RL(engine, DISK_LAYOUTS[0])
     try:
-        ddl = "create table t(" + ", ".join(f"{n} {t}{'' if nl else ' NOT NULL'}" for n, t, nl in cols) + ")"
+        # primary keys: a column option on one column, or a table constraint over one or two columns
+        # (the only way to declare a composite key); key columns carry no NOT NULL of their own
+        pk, pk_style = [], None
+        keyable = [i for i, (_, t, _) in enumerate(cols) if t in ("INT", "BIGINT")]
+        if keyable and rng.random() < 0.45:
+            pk_style = rng.choice(["column", "constraint", "constraint"])
+            pk = [rng.choice(keyable)] if pk_style == "column" else sorted(rng.sample(keyable, min(len(keyable), rng.choice([1, 2]))))
+            cols = [(n, t, True if i in pk else nl) for i, (n, t, nl) in enumerate(cols)]
+        ddl = "create table t(" + ", ".join(
+            f"{n} {t}{' PRIMARY KEY' if (pk_style == 'column' and i in pk) else ('' if nl else ' NOT NULL')}" for i, (n, t, nl) in enumerate(cols))
+        if pk_style == "constraint":
+            ddl += ", PRIMARY KEY (" + ", ".join(cols[i][0] for i in pk) + ")"
+        ddl += ")"
         r = rl.sql(ddl)
         if not r["ok"]:
             res["inconclusive"] = "create rejected"
@@ -251,6 +263,8 @@ def leg_b(args):
                 for c, (n, t, nl) in enumerate(cols):
                     if row[c] is None and not nl:
                         res["violations"].append(dict(signature="null-in-not-null-column", what=f"{ddl}; {sql}: column {n} holds NULL", sql=sql, ddl=ddl, engine=engine))
+                    if row[c] is None and c in pk:
+                        res["violations"].append(dict(signature=f"null-in-primary-key-column:{pk_style}", what=f"{ddl}; {sql}: key column {n} holds NULL", sql=sql, ddl=ddl, engine=engine))
             if len(raw) != len(expected):
                 res["violations"].append(dict(signature="row-count-differs", what=f"{ddl}; {sql}: {len(raw)} rows stored for {len(expected)} inserted", sql=sql, ddl=ddl, engine=engine))
         res["sample"] = dict(ddl=ddl, insert=sql[:120])
